@@ -1302,6 +1302,16 @@ def _arg_for(pname, ann, ps, state):
     raise common.HarnessError(f"roles.alias: no argument recipe for parameter `{pname}: {a}`")
 
 
+def _signed_tx(p):
+    """the psbt's transaction with a script_sig and a witness on every input: what from_tx reads as unsigned,
+    and so what it must not blank on the caller's object"""
+    tx = p.tx
+    for tx_in in tx.vin:
+        tx_in.script_sig = b"\x51"
+        tx_in.script_witness = Witness([b"\x01"])
+    return tx
+
+
 def _call_entry(name, ps):
     """(operand psbts / operand data, thunk)"""
     import inspect
@@ -1315,7 +1325,7 @@ def _call_entry(name, ps):
     if kind == "constructor":
         short = name.split(".")[1]
         data = {"parse": lambda: p.serialize(), "b64decode": lambda: p.b64encode(), "from_dict": lambda: p.to_dict(),
-                "from_tx": lambda: p.tx}.get(short)
+                "from_tx": lambda: _signed_tx(p)}.get(short)
         if data is None:
             raise common.HarnessError(f"roles.alias: no recipe for the constructor {name}")
         d = data()
@@ -1436,9 +1446,6 @@ def _o_alias_all(w):
         return False, f"{name} raised {type(e).__name__}: {e}"
     if name in IN_PLACE:
         return r is None, f"{name}: documented to update the psbt in place; returns {type(r).__name__}"
-    if name == "Psbt.from_tx":
-        # documented: the maps handed in are the maps to fill; the transaction is a Creator's input, not a psbt
-        return isinstance(r, Psbt), "from_tx: Creator (takes a transaction, fills the maps it is given)"
     if [_snap(o) for o in watched] != before:
         return False, f"{name} modified what it was handed"
     if any(r is o for o in watched if not isinstance(o, (bytes, str, int))):
